@@ -11,6 +11,9 @@ for pid in ids:
         na.append({"property_id": pid, "reason": "check not built yet (work in progress; see DESIGN.md)"})
         continue
     cfg = importlib.import_module("props." + pid).CFG
+    if not all(k in cfg for k in ("level_text", "level_note", "theorems")) or cfg.get("wip") or not os.path.exists(os.path.join(V, "evidence", pid + ".json")):
+        na.append({"property_id": pid, "reason": "check under construction (model/harness exist, not yet registered); see DESIGN.md"})
+        continue
     if cfg.get("not_applicable"):
         na.append({"property_id": pid, "reason": cfg["not_applicable"]})
         continue
